@@ -41,7 +41,7 @@ theorem phase_eval (s : Sys) (ta tb ta1 tb1 ta2 tb2 : Tcb) (outA outB : List Seg
     (aB : tb1.arriveList outA = .ok tb2) (aA : ta1.arriveList outB = .ok ta2)
     (pA : ∀ g ∈ outA, g.hdr.srcPort = SideId.A.port ∧ g.hdr.dstPort = SideId.B.port)
     (pB : ∀ g ∈ outB, g.hdr.srcPort = SideId.B.port ∧ g.hdr.dstPort = SideId.A.port) :
-    ∃ s6, phase s = .ok s6 ∧ FinRun s s6 ∧
+    ∃ s6, phase s = .ok s6 ∧ PlainRun s s6 ∧
       (s6.side .A).tcb = some ta2.receive.1 ∧ (s6.side .B).tcb = some tb2.receive.1 ∧
       (s6.side .A).submitted = (s.side .A).submitted ∧ (s6.side .B).submitted = (s.side .B).submitted ∧
       (s6.side .A).delivered = (s.side .A).delivered ++ ta2.receive.2 ∧
@@ -89,9 +89,9 @@ theorem phase_eval (s : Sys) (ta tb ta1 tb1 ta2 tb2 : Tcb) (outA outB : List Seg
     rw [st5]
     dsimp only
     rw [st6]
-  · have r02 : FinRun s s2 :=
-      (FinRun.step (op := .emit .A) (.refl _) trivial st1).trans (.step (op := .emit .B) (.refl _) trivial st2)
-    exact (((r02.trans (FinRun.of_plain r23)).trans (FinRun.of_plain r34)).trans
+  · have r02 : PlainRun s s2 :=
+      (PlainRun.step (op := .emit .A) (.refl _) trivial st1).trans (.step (op := .emit .B) (.refl _) trivial st2)
+    exact (((r02.trans r23).trans r34).trans
       (.step (op := .read .A) (.refl _) trivial st5)).trans (.step (op := .read .B) (.refl _) trivial st6)
   · rw [h6pa, h5sub, h4sub, h3pa, h2pa, h1sub]
   · rw [h6sub, h5pb, h4pb, h3sub, h2sub, h1pb]
@@ -207,7 +207,8 @@ theorem release_simultaneous (s : Sys) (ta tb : Tcb) (ha : (s.side .A).tcb = som
     rw [st6]
   · have r02 : FinRun s s2 :=
       (FinRun.step (op := .close .A) (.refl _) trivial st1).trans (.step (op := .close .B) (.refl _) trivial st2)
-    exact (((r02.trans r23).trans r34).trans (.step (op := .tick .A (TIME_WAIT + 1)) (.refl _) trivial st5)).trans
+    exact (((r02.trans (FinRun.of_plain r23)).trans (FinRun.of_plain r34)).trans
+      (.step (op := .tick .A (TIME_WAIT + 1)) (.refl _) trivial st5)).trans
       (.step (op := .tick .B (TIME_WAIT + 1)) (.refl _) trivial st6)
   · show (s4.side .A).submitted = _
     rw [h4sa, h3sa, h2sa]
